@@ -50,6 +50,7 @@ type Sched struct {
 	Trace       []Decision
 	prefix      []int
 	last        *Thread
+	delayed     []*Thread
 	Horizon     time.Duration // virtual time after which an idle system is considered finished/hung
 	MaxSteps    int
 	Demote      string // name of a thread that is scheduled only when nothing else is enabled
@@ -62,6 +63,24 @@ type Sched struct {
 }
 
 var active atomic.Pointer[Sched]
+
+// LibFirst as Sched.Demote selects the library-first canonical order: harness threads
+// (the environment) are scheduled only when no library goroutine is enabled, even the one
+// that ran last. The default order lets the last-run thread continue, so an environment
+// thread performs its whole burst of actions before the library reacts; under LibFirst
+// the library reacts to each single action first. Departure-bounded search around both
+// canonical schedules covers two different neighbourhoods.
+const LibFirst = "~*"
+
+// Sticky as a suffix of Sched.Demote ("+", "~*+") turns every departure into a delay in the
+// sense of delay-bounded scheduling (Emmi, Qadeer, Rakamaric, POPL 2011): a thread passed
+// over by a non-default choice goes behind every other enabled thread until it has run
+// again, instead of regaining its place as soon as the preferred thread blocks. One sticky
+// departure is "this goroutine is preempted here for as long as anything else can run".
+const Sticky = "+"
+
+func (s *Sched) policy() string { return strings.TrimSuffix(s.Demote, Sticky) }
+func (s *Sched) sticky() bool   { return strings.HasSuffix(s.Demote, Sticky) }
 
 func goid() uint64 {
 	var buf [64]byte
@@ -232,6 +251,11 @@ func (s *Sched) Run(wait func(), finished func() bool, mon func()) {
 		runningEnabled := false
 		for i, th := range en {
 			if th == s.last {
+				if s.policy() == LibFirst && th.harness && libReady {
+					// library-first policy: a harness thread keeps the processor only while no
+					// library goroutine can run (the environment acts as late as possible)
+					break
+				}
 				runningEnabled = true
 				copy(en[1:i+1], en[0:i])
 				en[0] = th
@@ -241,14 +265,34 @@ func (s *Sched) Run(wait func(), finished func() bool, mon func()) {
 		// starvation schedule: the demoted thread goes last, i.e. it runs only when nothing
 		// else can (priority-lowered schedule; replayable like any other since the canonical
 		// order is a function of the enabled set and Demote)
-		if s.Demote != "" && len(en) > 1 {
+		if pol := s.policy(); pol != "" && pol != LibFirst && len(en) > 1 {
 			for i, th := range en {
-				if th.Name == s.Demote {
+				if th.Name == pol {
 					copy(en[i:], en[i+1:])
 					en[len(en)-1] = th
 					break
 				}
 			}
+		}
+		// sticky departures: threads passed over by an earlier non-default choice stay behind
+		// every other enabled thread (in the order they were passed over) until they run again
+		if s.sticky() && len(s.delayed) > 0 && len(en) > 1 {
+			isDelayed := func(th *Thread) int {
+				for k, d := range s.delayed {
+					if d == th {
+						return k
+					}
+				}
+				return -1
+			}
+			sort.SliceStable(en, func(i, j int) bool {
+				di, dj := isDelayed(en[i]), isDelayed(en[j])
+				if di < 0 || dj < 0 {
+					return di < 0 && dj >= 0
+				}
+				return di < dj
+			})
+			runningEnabled = runningEnabled && en[0] == s.last
 		}
 		choice := 0
 		idx := len(s.Trace)
@@ -274,6 +318,23 @@ func (s *Sched) Run(wait func(), finished func() bool, mon func()) {
 			}
 		}
 		s.mu.Unlock()
+		if s.sticky() {
+			for _, passed := range en[:choice] {
+				known := false
+				for _, d := range s.delayed {
+					known = known || d == passed
+				}
+				if !known {
+					s.delayed = append(s.delayed, passed)
+				}
+			}
+			for k, d := range s.delayed {
+				if d == th {
+					s.delayed = append(s.delayed[:k:k], s.delayed[k+1:]...)
+					break
+				}
+			}
+		}
 		s.last = th
 		select {
 		case <-s.arrived:
